@@ -67,7 +67,7 @@ def containers_of(I):
     import sys, types
     pkg = I.modname.rsplit(".", 1)[0]
     mods = [m for n, m in sorted(sys.modules.items()) if m is not None and
-            (n.startswith(pkg) or n in ("amoco.cas.expressions", "amoco.cas.mapper", "amoco.cas.utils", "amoco.arch.core", "amoco.system.memory"))]
+            (n.startswith(pkg) or n.startswith("amoco.cas.") or n in ("amoco.arch.core", "amoco.system.memory", "amoco.system.core"))]
     out, seen = [], set()
     def add(label, o):
         if isinstance(o, (list, dict, set)) and id(o) not in seen:
@@ -82,6 +82,9 @@ def containers_of(I):
                 for a, w in sorted(vars(v).items()):
                     if not a.startswith("__"):
                         add("%s.%s.%s" % (m.__name__, k, a), w)
+                    if isinstance(w, types.FunctionType) and w.__defaults__:
+                        for j, d_ in enumerate(w.__defaults__):
+                            add("%s.%s.%s.<default %d>" % (m.__name__, k, a, j), d_)
             if isinstance(v, types.FunctionType) and v.__defaults__:
                 for j, w in enumerate(v.__defaults__):
                     add("%s.%s.<default %d>" % (m.__name__, k, j), w)
@@ -386,6 +389,41 @@ def main(tier):
                         ck.count("footprint.decode-batch.dirty")
                     W.restore({name})
             ck.count("footprint.decode-batch")
+            # execution-only footprints on a few more samples per spec (an operand value — a port number, a
+            # register index — may decide whether a shared table is touched)
+            before = W.snap({name})
+            ran = []
+            for bs, i in got[: (2 if quick else 6)]:
+                if i is None:
+                    continue
+                try:
+                    if hasattr(I.cpu, "PC"):
+                        try:
+                            i.address = I.cpu.cst(0x1000, I.cpu.PC().size)
+                        except Exception:
+                            pass
+                    m_ = mapper(); i(m_)
+                    ran.append((bs, i))
+                except Exception:
+                    pass
+            if ran and W.diff(before):
+                W.restore({name})
+                for bs, i in ran:
+                    before = W.snap({name})
+                    try:
+                        m_ = mapper(); i(m_)
+                    except Exception:
+                        pass
+                    d = W.diff(before)
+                    if d:
+                        key = (name, "exec:%s" % i.mnemonic)
+                        row = rows.setdefault(key, {})
+                        row_example.setdefault(key, bs[:len(i.bytes)])
+                        for (n2, slot, sname, val) in d:
+                            row[(slot if n2 == name else 50000 + slot, sname if n2 == name else n2 + ":" + sname)] = val
+                        ck.count("footprint.exec-batch.dirty")
+                    W.restore({name})
+            ck.count("footprint.exec-batch")
         for s in [x for x in specs for _ in range(per_spec)]:
             bs = isa.directed_bytes(s, e, fr)
             before = W.snap({name})
